@@ -33,6 +33,9 @@ type SubSession struct {
 	ShouldWaitVideoKeyFrame bool
 
 	Stage nazaatomic.Int32 // 见 SubSessionStageReadDescribe 等常量定义
+
+	// DisposeByObserverFlag 上层在 OnNewRtspSubSessionDescribe 回调中拒绝了这个session，此时不再触发 OnDelRtspSubSession
+	DisposeByObserverFlag bool
 }
 
 func NewSubSession(urlCtx base.UrlContext, cmdSession *ServerCommandSession) *SubSession {
